@@ -137,4 +137,38 @@ def specRecord (f : RecFacts) (v : RecVerdict) : Bool :=
   | .errMismatch => f.envelopeOk && f.recordDecodes && f.peerIdParses && !f.peerIdIsSigner
   | .errAddr => f.envelopeOk && f.recordDecodes && f.peerIdParses && f.peerIdIsSigner && !f.addrsParse
 
+
+/-! ## re-split attack (moving a field boundary under the same signature) -/
+
+/-- an envelope signed for `(d, t, p)` is presented as `(d', t', p')` with the same key and
+signature, checked under domain `d'` with expected type `t'`.  With ideal signatures the check
+passes iff the signed bytes coincide (this is what the model computes) … -/
+def resplitModel (d t p d' t' p' : List Nat) : Bool × Verdict :=
+  let v := signaturePayload d t p == signaturePayload d' t' p'
+  (v, if v then .ok else .errSig)
+
+/-- … and the property demands: accepted ⇒ the presented triple IS the signed one (and the signed
+one is accepted). -/
+def specResplit (d t p d' t' p' : List Nat) (verify : Bool) (v : Verdict) : Bool :=
+  let same := d == d' && t == t' && p == p'
+  verify == same && v == (if same then Verdict.ok else Verdict.errSig)
+
+/-- the signed bytes as the Spec reads them back: three length-prefixed fields and nothing else -/
+def splitPayload (bs : List Nat) : Option (List Nat × List Nat × List Nat) :=
+  match Varint.decode bs with
+  | none => none
+  | some (n1, r1) =>
+    if r1.length < n1 then none else
+    match Varint.decode (r1.drop n1) with
+    | none => none
+    | some (n2, r2) =>
+      if r2.length < n2 then none else
+      match Varint.decode (r2.drop n2) with
+      | none => none
+      | some (n3, r3) => if r3.length = n3 then some (r1.take n1, r2.take n2, r3) else none
+
+/-- Spec for the signed bytes themselves: they parse back, unambiguously, to the three fields -/
+def specPayloadBytes (d t p : List Nat) (bytes : List Nat) : Bool :=
+  splitPayload bytes == some (d, t, p)
+
 end C21
